@@ -52,6 +52,7 @@ pub enum Error {
     MultipleFallbacks,
     MissingFallback(RangeType),
     RangeSubkeys,
+    RangeNullValue,
     RangeNumberType {
         found: RangeType,
         expected: RangeType,
@@ -207,6 +208,7 @@ impl Display for Error {
             Error::MultipleFallbacks => write!(f, "only one fallback is allowed"),
             Error::MissingFallback(t) => write!(f, "range type {} require a fallback (or a fullrange \"..\")", t),
             Error::RangeSubkeys => write!(f, "subkeys for ranges are not allowed"),
+            Error::RangeNullValue => write!(f, "explicit defaults (null) are not allowed as the value of a range, default the whole key instead"),
             Error::SubKeyMissmatch { locale, key_path } => {
                 write!(f, "Missmatch value type beetween locale {:?} and default at key \"{}\": one has subkeys and the other has direct value.", locale, key_path)
             },
